@@ -35,7 +35,7 @@ def gen(tier, rng, shard, nshards):
                "seed": S.seed(rng), "start": S.pick(rng, ["generic", "generic", "eigvec", "few-eigvecs", "default", "batched", "batched-mixed"]),
                "max_iters": S.pick(rng, ["1", "2", "n//2", "n-1", "n", "n+5", "default"]), "tol": float(S.pick(rng, [1e-12, 1e-12, 1e-8, 1e-5, 1e-3])),
                "fn": S.pick(rng, ["lanczos", "lanczos", "lanczos", "lanczos_eigs", "Lanczos()"]),
-               "scale": float(S.pick(rng, [1.0, 1.0, 1e6, 1e-6]))}
+               "scale": float(S.pick(rng, [1.0, 1.0, 1e6, 1e-6])), "real_start": bool(rng.random() < 0.3)}
         if rng.random() < 0.12:
             # start vectors whose Krylov space is exhausted *exactly* (residual identically zero, not merely ~1e-16):
             # kernel vector of an integer graph Laplacian, the zero operator, a coordinate eigenvector of a diagonal matrix
@@ -91,6 +91,8 @@ def build(case):
         v = vec(st)
     if v is not None:
         v = v.astype(P.DT[dt])
+        if cplx and case.get("real_start") and st in ("generic", "batched"):
+            v = np.ascontiguousarray(v.real)  # a real start vector for a complex Hermitian operator (narrower dtype than the operator)
     mi = {"1": 1, "2": 2, "n//2": max(1, n // 2), "n-1": max(1, n - 1), "n": n, "n+5": n + 5, "default": None}[case["max_iters"]]
     return M, v, lam, d, mi, Q
 
@@ -151,14 +153,14 @@ def judge_one(ctx, case, M, v, Q, T, lam, d, mi, preds, tol_run):
     # projection and three-term relation, on the live leading block (a contiguous prefix)
     if kl >= 1 and np.all(live[:kl]):
         Tl = T[:kl, :kl]
-        P1 = Ql.conj().T @ M.astype(Ql.dtype) @ Ql
+        P1 = Ql.conj().T @ M @ Ql
         ctx.check("T-is-QH-A-Q", bool(np.abs(P1 - Tl).max() <= 1e3 * eps * normA * n + 10 * tol_run * normA * 0), site="lanczos", preds=preds,
                   detail={"dev": float(np.abs(P1 - Tl).max()), "normA": normA})
-        Rm = M.astype(Ql.dtype) @ Ql - Ql @ Tl
+        Rm = M @ Ql - Ql @ Tl
         ctx.check("AQ-QT-vanishes-except-last-column", bool(np.abs(Rm[:, :-1]).max(initial=0.0) <= 1e3 * eps * normA * n), site="lanczos",
                   preds=preds, detail={"dev": float(np.abs(Rm[:, :-1]).max(initial=0.0))})
         # Krylov spaces: principal angles against the reference basis (while it is numerically full rank)
-        K = krylov_basis(M.astype(Ql.dtype), v.astype(Ql.dtype), kl)
+        K = krylov_basis(M, v.astype(np.result_type(M.dtype, v.dtype)), kl)
         kk = min(K.shape[1], kl)
         worst = 0.0
         for j in sorted(set([1, 2, max(1, kk // 2), kk])):
@@ -200,6 +202,8 @@ def run_case(ctx, case):
         ctx.count(key, case[key])
     A = cola.SelfAdjoint(cola.ops.Dense(M))
     preds = {"start": case["start"], "family": case["family"], "complex": np.iscomplexobj(M), "fn": case["fn"], "max_iters": case["max_iters"]}
+    if v is not None and np.iscomplexobj(M) and not np.iscomplexobj(v):
+        preds["start_narrower_than_operator"] = True
     kw = {"tol": case["tol"]}
     if mi is not None:
         kw["max_iters"] = mi
@@ -223,13 +227,13 @@ def run_case(ctx, case):
         ctx.check("ritz-values-ascending", bool(ok_sorted), site="lanczos_eigs", preds=preds, detail={"values": vals})
         # Ritz pairs of (Q, T): V^H A V = diag(vals), V orthonormal; with max_iters >= n they are eigenpairs
         k = len(vals)
-        G = Vd.conj().T @ M.astype(Vd.dtype) @ Vd
+        G = Vd.conj().T @ M @ Vd
         normA = max(np.linalg.norm(M, 2), 1e-300)
         ctx.check("ritz-pairs", bool(Vd.shape == (n, k) and np.abs(G - np.diag(vals)).max(initial=0.0) <= 1e-9 * normA and
                                      np.abs(Vd.conj().T @ Vd - np.eye(k)).max(initial=0.0) <= 1e-10), site="lanczos_eigs", preds=preds,
                   detail={"dev": float(np.abs(G - np.diag(vals)).max(initial=0.0)), "k": k})
         if (100 if mi is None else mi) >= n and case["family"] in ("simple", "indefinite") and case["tol"] <= 1e-8 and case["start"] in ("generic", "default"):
-            res = np.linalg.norm(M.astype(Vd.dtype) @ Vd - Vd * vals[None, :], axis=0)
+            res = np.linalg.norm(M @ Vd - Vd * vals[None, :], axis=0)
             ctx.check("full-run-gives-eigenpairs", bool(k == n and np.all(res <= 1e-7 * normA)), site="lanczos_eigs", preds=preds,
                       detail={"k": k, "n": n, "max_res": float(res.max(initial=0.0))})
         return
